@@ -200,7 +200,7 @@ func (b *Builder) Enum(name, simple string, unsigned bool, opts ...OptSpec) *Str
 	var os []Value
 	for _, o := range opts {
 		ov := b.New("EnumOption")
-		ov.Set("Name", o.Name).Set("Value", o.Value).Set("UintValue", int64(o.UintValue)).Set("Deprecated", o.Deprecated)
+		ov.Set("Name", o.Name).Set("Value", o.Value).Set("UintValue", U64(o.UintValue)).Set("Deprecated", o.Deprecated)
 		os = append(os, ov)
 	}
 	if len(os) > 0 {
